@@ -25,6 +25,8 @@ STD_CELLS = [
     ("clustering", "G2u", {"flow_proposal_class": "ClusteringFlowProposal", "max_iteration": 600}),
     ("augmented-marginalised", "G2u", {"flow_proposal_class": "AugmentedFlowProposal", "marginalise_augment": True, "n_marg": 5, "max_iteration": 500}),
     ("augmented", "G2u", {"flow_proposal_class": "AugmentedFlowProposal", "max_iteration": 600}),
+    ("augmented-3-dims", "G2u", {"flow_proposal_class": "AugmentedFlowProposal", "augment_dims": 3, "max_iteration": 500}),
+    ("augmented-2-dims-logit", "G2u", {"flow_proposal_class": "AugmentedFlowProposal", "augment_dims": 2, "reparameterisations": {"x0": "logit", "x1": "logit"}, "max_iteration": 500}),
     ("no-uninformed", "G2u", {"maximum_uninformed": 0}),
     ("latent-nball", "G2u", {"latent_prior": "uniform_nball"}),
     ("latent-nball-novolume", "G2u", {"latent_prior": "uniform_nball", "constant_volume_mode": False}),
@@ -66,7 +68,7 @@ STD_CELLS = [
     ("tolerance-loose", "G2u", {"stopping": 0.5}),
 ]
 
-QUICK_STD = ["default-G2u", "default-G4u", "nonuniform-analytic", "nonuniform-rejection-box-draws", "constrained-prior", "constrained-prior-leaky-uninformed", "flat-direction-prime-prior", "bimodal-default", "ties-nlive50", "ties-analytic", "gw-proposal", "clustering", "augmented-marginalised", "augmented", "no-uninformed",
+QUICK_STD = ["default-G2u", "default-G4u", "nonuniform-analytic", "nonuniform-rejection-box-draws", "constrained-prior", "constrained-prior-leaky-uninformed", "flat-direction-prime-prior", "bimodal-default", "ties-nlive50", "ties-analytic", "gw-proposal", "clustering", "augmented-marginalised", "augmented", "augmented-3-dims", "augmented-2-dims-logit", "no-uninformed",
              "latent-nball", "latent-gaussian", "latent-flow", "radius-worst-point", "radius-min-max", "truncate-log-q", "accumulate-weights", "drawsize-small",
              "reparam-logit", "reparam-inversion-split", "reparam-inversion-duplicate", "reparam-angle", "flow-maf", "flow-nsf", "nlive-10", "nlive-300",
              "memory", "reset-weights", "uninformed-50", "shrinkage-t", "pool-2", "capped-300", "prior-sampling", "prior-sampling-checkpointing", "asym-reordered-reparam", "asym-reordered-logit-zscore", "logL-minus-2000", "logL-plus-900", "tolerance-loose"]
